@@ -1,6 +1,9 @@
 #!/bin/bash
 # Regenerates the claimed-obligation ledgers: an obligation is claimed when it is
 # discharged quickly (< 30% of the quick timeout) in two consecutive runs.
+# Also records the shape of the pinned tree (all obligation IDs, declared locals and
+# ranged-over locals of the functions under contract), which the check uses to tell a
+# renumbered or renamed site from a missing one.
 cd /verif
 for p in "$@"; do
   rm -f baseline/$p.json
@@ -15,4 +18,5 @@ c=sorted(a&b)
 json.dump(c,open(f'/verif/baseline/{p}.json','w'),indent=0)
 print(p,len(a),len(b),'->',len(c))
 PY
+  ./bin/gocv check --prop $p --write-shape >/dev/null 2>&1
 done
